@@ -53,7 +53,8 @@ def _run_lines(cmd, lines, timeout):
     data = "".join(l + "\n" for l in lines)
     try:
         p = subprocess.run(cmd, input=data, capture_output=True, text=True, env=env, timeout=timeout)
-        return p.stdout.split("\n")[:-1] if p.stdout.endswith("\n") else p.stdout.split("\n"), p.returncode
+        # the last piece is either empty (complete output) or a partial line of a process that died: never an answer
+        return p.stdout.split("\n")[:-1], p.returncode
     except subprocess.TimeoutExpired as e:
         out = e.stdout or b""
         if isinstance(out, bytes):
